@@ -28,6 +28,7 @@ func runC04(r *Run) {
 	r.Alias("$front", "recv.accountStore.SequencerFront(recv.momentumStore.GetAccountMailbox($b.Address))")
 	r.Alias("$blk", "append(new([1]*nom.AccountBlock)[:],recv.GetAccountBlock(a0)#0.DescendantBlocks)[(iter+1)]")
 	r.Alias("$ctx", "eq(nil,recv.DB.Subset(momentum.getAccountStorePrefix(a0.Address)).Apply(a1)) & ne(0,len(a1.Dump()))")
+	r.Alias("$lctx", "$ctx & eq(nil,recv.setBlockConfirmationHeight($blk.Hash,(recv.Identifier().Height+1)))")
 
 	// (1) received marker
 	r.Guards([]row{
@@ -68,10 +69,10 @@ func runC04(r *Run) {
 	// (3) confirmation bookkeeping
 	add := "chain/momentum.(*momentumStore).AddAccountBlockTransaction"
 	r.Guards([]row{
-		{F: add, C: "ne(nil,recv.getAccountMailbox($blk.ToAddress).MarkAsUnreceived($blk.Hash)) @ $ctx", Why: "every confirmed send becomes receivable in the addressee's mailbox"},
-		{F: add, C: "ne(nil,recv.getAccountMailbox($blk.Address).MarkAsReceived($blk.FromBlockHash)) @ $ctx", Why: "a confirmed receive clears the pending entry of its send"},
+		{F: add, C: "ne(nil,recv.getAccountMailbox($blk.ToAddress).MarkAsUnreceived($blk.Hash)) @ $lctx & T($blk.IsSendBlock())", Why: "every confirmed send becomes receivable in the addressee's mailbox"},
+		{F: add, C: "ne(nil,recv.getAccountMailbox($blk.Address).MarkAsReceived($blk.FromBlockHash)) @ $lctx & F($blk.IsSendBlock()) & ne(1,$blk.BlockType)", Why: "a confirmed receive clears the pending entry of its send"},
 		{F: add, C: "ne(nil,recv.addAccountBlockHeader($blk.Header())) @ $ctx", Why: "every block of the batch (including descendants) is indexed"},
-		{F: add, C: "eq(nil,recv.GetAccountBlockByHash($blk.FromBlockHash)#0) @ $ctx", Why: "a receive without its send is refused"},
+		{F: add, C: "eq(nil,recv.GetAccountBlockByHash($blk.FromBlockHash)#0) @ $lctx & F($blk.IsSendBlock()) & ne(1,$blk.BlockType)", Why: "a receive without its send is refused"},
 	})
 	r.Has(add, "recv.getAccountMailbox($blk.ToAddress).SequencerPushBack($blk.Header())", "sends to contracts are queued in confirmation order")
 	r.OnCondMustCall(add, "T(types.IsEmbeddedAddress($blk.ToAddress))", ".SequencerPushBack", "a send is queued iff its addressee is an embedded contract")
